@@ -138,6 +138,16 @@ def run(ctx):
             for pf in ("past", "future"):
                 st = dict(tzs, RELATIVE_BASE=R.choice(BASES[:6]), PREFER_DATES_FROM=pf)
                 jobs.append((R.choice(["parse", "gdd"]), s, {"languages": ["en"], "settings": st}, [fm] if fm else None)); expect.append(None)
+    # local times that are ambiguous or do not exist in an IANA zone (DST transitions), time-only and full strings
+    for tzn, amb, gap in [("America/New_York", D(2026, 11, 1, 12, 0), D(2026, 3, 8, 12, 0)), ("Europe/Paris", D(2026, 10, 25, 12, 0), D(2026, 3, 29, 12, 0)),
+                          ("Australia/Lord_Howe", D(2026, 4, 5, 12, 0), D(2026, 10, 4, 12, 0))]:
+        for b in (amb, gap):
+            for s in ("1:30", "2:30", "01:45", "02:15", "%04d-%02d-%02d 01:30" % (b.year, b.month, b.day), "%04d-%02d-%02d 02:30" % (b.year, b.month, b.day), "yesterday 1:30", "1 hour ago"):
+                for pf in ("past", "future", "current_period"):
+                    st = {"TIMEZONE": tzn, "RELATIVE_BASE": b, "PREFER_DATES_FROM": pf}
+                    if R.random() < 0.3:
+                        st["TO_TIMEZONE"] = "UTC"
+                    jobs.append((R.choice(["parse", "gdd"]), s, {"languages": ["en"], "settings": st}, None)); expect.append(None)
     # invalid configuration / wrongly typed arguments: the documented exception, whatever the string
     bad_settings = [({"UNKNOWN": 1}, "SettingValidationError"), ({"DATE_ORDER": "XYZ"}, "SettingValidationError"), ({"STRICT_PARSING": "yes"}, "SettingValidationError"),
                     ({"PREFER_DATES_FROM": "yesterday"}, "SettingValidationError"), ({"REQUIRE_PARTS": ["hour"]}, "SettingValidationError"), ({"PARSERS": ["foo"]}, "SettingValidationError"),
